@@ -75,6 +75,7 @@ def centre_of_gravity(img, threshold=0, min_threshold=0, **kwargs):
             thres = numpy.maximum(threshold*img.max(-1).max(-1), [min_threshold]*img.shape[0])
             img_temp = (img.T - thres).T
             zero_coords = numpy.where(img_temp < 0)
+            img = img.copy()
             img[zero_coords] = 0
 
     if len(img.shape) == 2:
